@@ -91,6 +91,49 @@ def tiny_eigenvalue_cases(col):
         col.add(bad)
 
 
+def user_tolerance_case():
+    """a tolerance chosen by the user is the threshold that is applied: RW1 penalty scaled by 1e-8 (genuine eigenvalues 4e-9..4e-8, numerical noise
+    of the zero eigenvalue ~1e-15) with tol=1e-12 and neither rank nor log_pdet supplied; and tol=0.5 on the unscaled penalty (eigenvalue 0.38 excluded)"""
+    D = np.diff(np.eye(5), axis=0)
+    K = D.T @ D
+    lam, Q = np.linalg.eigh(K)
+    lam[0] = 0.0
+    x = np.array([0.3, -1.0, 0.8, 2.0, -0.4])
+    Kj, xj = jnp.asarray(K, jnp.float32), jnp.asarray(x, jnp.float32)
+    for scale, tol, keep in ((1e-8, 1e-12, lam > 0), (1.0, 0.5, lam > 0.5)):
+        d = MVND(jnp.zeros(5), Kj * scale, tol=tol)
+        r = int(d.rank)
+        lams = np.where(keep, lam * scale, 0.0)
+        want = ref_logpdf(x, np.zeros(5), lams, Q, int(keep.sum())) if keep.all() or scale != 1.0 else None
+        if r != int(keep.sum()):
+            return {"sig": "native::mvn_degen::user_tolerance", "what": f"MultivariateNormalDegenerate(prec=K*{scale}, tol={tol}).rank = {r}, but {int(keep.sum())} eigenvalues "
+                    f"{(lam * scale)[keep].tolist()} exceed the tolerance", "input": {"scale": scale, "tol": tol}}
+        lp_want = float(np.sum(np.log((lam * scale)[keep])))
+        if not np.isclose(float(d.log_pdet), lp_want, rtol=5e-3, atol=5e-2):
+            return {"sig": "native::mvn_degen::user_tolerance", "what": f"MultivariateNormalDegenerate(prec=K*{scale}, tol={tol}).log_pdet = {float(d.log_pdet):.4f}, expected {lp_want:.4f}",
+                    "input": {"scale": scale, "tol": tol}}
+    return None
+
+
+def sampling_factor_cases(col, rng):
+    """the deterministic part of sampling: the factor S used by sample() (x = loc + S z) satisfies S S' = pseudo-inverse of the precision, its
+    non-zero columns are as many as the rank the density uses, and S z stays in the range space - also for ill-conditioned precisions (range-
+    space condition number up to 2.5e6) and eigenvalues between the absolute tolerance and tolerance x largest eigenvalue"""
+    import jax
+    for name, lam in (("well conditioned", np.array([0.0, 0.5, 1.0, 3.0])), ("ill conditioned", np.array([0.0, 2e-4, 1.0, 500.0])), ("full rank, spread", np.array([3e-5, 0.02, 7.0, 40.0]))):
+        d = MVND(jnp.zeros(4), jnp.asarray(np.diag(lam), jnp.float32))
+        S = np.asarray(d._sqrt_pcov, np.float64)
+        pinv = np.diag([0.0 if l_ <= 1e-6 else 1.0 / l_ for l_ in lam])
+        r = int(np.asarray(d.rank))
+        nz_cols = int(np.sum(np.abs(S).sum(axis=0) > 0))
+        xs = np.asarray(d.sample(64, seed=jax.random.PRNGKey(3)), np.float64)
+        null = lam <= 1e-6
+        ok = np.allclose(S @ S.T, pinv, rtol=2e-3, atol=1e-6) and nz_cols == r == int(np.sum(lam > 1e-6)) and np.allclose(xs[:, null], 0.0, atol=1e-6) and \
+            all(np.std(xs[:, j]) > 0 for j in range(4) if not null[j])
+        col.add(None if ok else {"sig": "native::mvn_degen::sampling_factor", "what": f"{name} (eigenvalues {lam.tolist()}): S S' has diagonal {np.diag(S @ S.T).round(4).tolist()}, pseudo-inverse "
+                                 f"{np.diag(pinv).round(4).tolist()}; non-zero columns {nz_cols}, rank used by the density {r}", "input": {"eigenvalues": lam.tolist()}})
+
+
 def batch_cases(col, rng):
     m, r = 3, 2
     K, Q, lam = rand_penalty(rng, m, r)
@@ -176,13 +219,18 @@ def bounded(tier, seed):
     n = 25 if tier == "quick" else 600
     mvn_cases(col, rng, n)
     tiny_eigenvalue_cases(col)
+    col.add(user_tolerance_case())
     batch_cases(col, rng)
+    try:
+        sampling_factor_cases(col, rng)
+    except Exception as e:
+        col.add({"sig": f"native::mvn_degen::exception::{type(e).__name__}", "what": str(e)[:200], "input": {"scenario": "sampling factor"}})
     sigmoid_cases(col)
     copula_cases(col)
     return {
         "evaluations": col.evals, "distinct_nontrivial": col.evals,
         "rule": (f"BOUNDED: {n} seeded degenerate-MVN cases (dim 1-4, rank 0..dim, variance in {{0.37,1,5}}) x 7 constructor variants against an eigendecomposition "
-                 "reference incl. null-space invariance; RW1 penalty with eigenvalues scaled by 1e7 / 1e-7 and supplied rank; a (2,2) batch; Gaussian copula also for batches of dependences with 1-3 batch axes (non-symmetric, non-square); algebraic sigmoid on a 9-point grid and in the tails (|x| up to 9999, |y| up to 0.9999, closed-form float64 reference, eager and jit) "
+                 "reference incl. null-space invariance; RW1 penalty with eigenvalues scaled by 1e7 / 1e-7 and supplied rank; user tolerances 1e-12 / 0.5 with derived rank and log_pdet; a (2,2) batch; the sampling factor S (S S' = pseudo-inverse, columns = rank, samples in the range space) for well- and ill-conditioned precisions; Gaussian copula also for batches of dependences with 1-3 batch axes (non-symmetric, non-square); algebraic sigmoid on a 9-point grid and in the tails (|x| up to 9999, |y| up to 0.9999, closed-form float64 reference, eager and jit) "
                  "(inverse, |forward| <= 1, ldj = log of jax.grad); Gaussian copula on 7 dependences in (-1,1) x 5 points x validate_args in {False, True} against the closed form, "
                  f"plus a matrix batch. Sampling-distribution clauses are not checked (not applicable to this family). seed={seed}"),
         "samples": [{"dim": 4, "rank": 2, "var": 0.37}, {"dependence": -0.5, "validate_args": True}],
@@ -191,6 +239,8 @@ def bounded(tier, seed):
 
 
 def replay(unit_id, obligation, model):
+    if unit_id == "C18.mvn_degen_init":
+        return user_tolerance_case()
     if unit_id != "C18.copula_init":
         return None
     try:
